@@ -52,6 +52,8 @@ def gen_cases(tier, seed):
         R0 = r.sample(rest, r.randint(0, min(2, len(rest)))) if r.random() < 0.4 else []
         tmin = r.choice([0, -2, 1.5])
         tmax = r.choice(['inf', 'inf', tmin + 1, tmin + 2, tmin + 3.5, tmin + 0.5])
+        if tmin < 0 and r.random() < 0.3:
+            tmax = r.choice([0, 0.0])         # horizon exactly zero (falsy) after a negative start
         out.append({'kind': kinds[k % len(kinds)], 'graph': desc, 'vs': vs, 'dur': ['inf' if x == INF else x for x in dur],
                     'delay': {kk: ('inf' if x == INF else x) for kk, x in dl.items()}, 'I0': I0, 'R0': R0, 'tmin': tmin, 'tmax': tmax,
                     'form': r.choice(['sep', 'joint']), 'full': r.random() < 0.6, 'seed': cs,
